@@ -681,6 +681,68 @@ def suite_regrid(ctx):
     return bad
 
 
+def suite_layered(ctx):
+    """Layered (1-D) mode with default options: same data for all mappings."""
+    import emg3d
+    rng = ctx.nprng('layered')
+    bad = []
+    nv0 = len(ctx.violations)
+    for w in range(2 if ctx.thorough else 1):
+        hx = np.r_[400., 300, 200, 200, 300, 400]
+        hz = np.r_[400., 300, 200, 100, 100]
+        grid = emg3d.TensorMesh([hx, hx, hz], (-900, -900, -1100))
+        shp = grid.shape_cells
+        vti = bool(w % 2)
+        sig = {}
+        for d in (['x', 'z'] if vti else ['x']):
+            lay = 10.0**rng.uniform(-0.5, 1.0, shp[2])
+            s = np.ones(shp)*lay[None, None, :]
+            s *= 10.0**rng.uniform(-0.6, 0.6, shp)      # lateral variation,
+            sig[d] = s                                   # deepest layer too
+        src = emg3d.TxElectricDipole((-150., 20., -250., 20., 5.))
+        recs = {'Rx-a': emg3d.RxElectricPoint((350., 60., -200., 0., 0.)),
+                'Rx-b': emg3d.RxMagneticPoint((-300., -380., -220., 45., 10.))}
+        survey = emg3d.Survey(sources=src, receivers=recs,
+                              frequencies=[8.0, 32.0], noise_floor=1e-17,
+                              relative_error=0.05)
+        res = {}
+        for m in MAPS:
+            mp = getattr(emg3d.maps, 'Map'+m)()
+            with warnings.catch_warnings():
+                warnings.simplefilter('ignore')
+                model = emg3d.Model(grid, mapping=m, **{
+                    'property_'+d: mp.forward(s.copy())
+                    for d, s in sig.items()})
+                for meth in ['cylinder', 'prism']:
+                    sim = emg3d.Simulation(
+                        survey=survey.copy(), model=model, layered=True,
+                        layered_opts={'method': meth}, gridding='same',
+                        max_workers=1, verb=-1, tqdm_opts=False)
+                    sim.compute()
+                    res[(m, meth)] = (
+                        sim.data.synthetic.data.copy(),
+                        dict(sim.layered_opts.get('ellipse', {})))
+            ctx.count(key=('layered', m, vti))
+        for (m, meth), (dat, ell) in res.items():
+            b, bell = res[('Conductivity', meth)]
+            err = float(np.max(np.abs(dat-b)/np.abs(b)))
+            rad = abs(ell.get('radius', 0)-bell.get('radius', 0)) > \
+                1e-9*abs(bell.get('radius', 1))
+            if err > 1e-8 or rad:
+                bad.append((m, meth, err))
+                ctx.violation(
+                    'layered-data-depend-on-mapping',
+                    f'layered mode ({meth}, default options): data of the '
+                    f'same conductivities expressed as {m} differ from '
+                    f'Conductivity by {err:.3g} (ellipse {ell} vs {bell})',
+                    {'mapping': m, 'method': meth, 'ellipse': repr(ell),
+                     'ellipse_conductivity': repr(bell)})
+    ctx.oblige('monitor: layered mode with default options gives the same '
+               'data for all six parametrisations', 'monitor',
+               not bad and len(ctx.violations) == nv0, str(bad[:2]))
+    return bad
+
+
 def run(ctx):
     ctx.lean('Emg3dVerif.Props.C14', THEOREMS)
     ctx.assumptions += [
@@ -691,7 +753,7 @@ def run(ctx):
     ]
     b = []
     for s in (suite_maps, suite_coeff, suite_validate, suite_results,
-              suite_regrid):
+              suite_regrid, suite_layered):
         b += s(ctx) or []
     if b and not ctx.violations:
         ctx.violation('model-correspondence-broken',
